@@ -24,7 +24,7 @@ RULE_TEXT = ('runs = deterministic sweep over defect classes (15) x every varian
 REACH_PROBES = ['class_syntax', 'class_unknown_instruction', 'class_undefined_symbol', 'class_defined_later',
                 'class_wrong_type', 'class_illegal_relativity', 'class_missing_home_file', 'class_missing_file_absolute_path', 'class_bad_integer',
                 'class_bad_integer_expression', 'class_bad_regex', 'class_act_syntax', 'class_stub_validation',
-                'class_stub_symbols', 'class_none_symbol_cmd', 'last_line_of_cleanup', 'mode_normal', 'mode_keep',
+                'class_stub_symbols', 'class_suite_shared_instruction', 'class_none_symbol_cmd', 'last_line_of_cleanup', 'mode_normal', 'mode_keep',
                 'mode_act', 'cmd_symbol', 'cmd_symbol_name', 'control_ok']
 
 PHASES = ['setup', 'before-assert', 'assert', 'cleanup']
@@ -51,6 +51,9 @@ DEFECTS = {
                           ('file f.txt = -contents-of -rel-home nofile', ALLP), ('run nofile-exe', ALLP),
                           ('stdin = -contents-of nofile.txt', ('setup',)),
                           ('run -python -existing-file nofile.py', ALLP),
+                          ('run @ ECHOP -existing-file -rel-home nofile.txt', ALLP),
+                          ('run @ ECHOP x -existing-file nofile.txt y', ALLP),
+                          ('file o.txt = -stdout-from @ ECHOP -existing-dir -rel-home no-such-dir', ALLP),
                           ('copy -rel-act-home nofile.txt', ALLP), ('% p -existing-file -rel-act-home nofile.txt', ALLP),
                           ('run -rel-act-home nofile-exe', ALLP)],
     # a missing file named by an absolute path (literally, or through a path symbol with an absolute value): it does not
@@ -70,8 +73,18 @@ DEFECTS = {
 }
 # the symbol definitions, each followed by a *legal* reference to the symbol: a defective reference inserted later is
 # then never the first reference to its symbol (a validator that checks only the first reference would miss it)
+# (instruction with {SYM}, valid value, invalid value, phases)
+SUITE_SHARED = [
+    ('timeout = @[PERCASE]@', '5', 'notAnInteger', ('before-assert', 'assert', 'cleanup')),
+    ('copy @[PERCASE]@ copied.txt', 'existing.txt', 'no-such-file.txt', ('before-assert', 'assert', 'cleanup')),
+    ("file r.txt = 'a' -transformed-by replace @[PERCASE]@ x", 'a', '(', ('before-assert', 'assert', 'cleanup')),
+    ('exit-code == @[PERCASE]@', '0', '1.5', ('assert',)),
+    ('% sp -existing-file @[PERCASE]@', 'existing.txt', 'no-such-file.txt', ('before-assert', 'assert', 'cleanup')),
+]
+
 BASE_DEFS = ['def string STRSYM = s', 'def list LISTSYM = a b', 'def path HOMEP = -rel-home hp',
-             'def path HOMEP2 = @[HOMEP]@/sub', 'def path ABSP = /no/such/dir',
+             'def path HOMEP2 = @[HOMEP]@/sub', 'def path ABSP = /no/such/dir', 'def program ECHOP = % echo-prog pa',
+             'run @ ECHOP legal-ref-arg',
              'file legal-ref-1.txt = "@[STRSYM]@ @[LISTSYM]@"',
              'copy @[HOMEP]@/sub/keep.txt legal-ref-2.txt',
              'copy @[HOMEP2]@/keep.txt legal-ref-3.txt']
@@ -126,6 +139,12 @@ def sweep_specs():
             for pos in ('first', 'middle', 'last'):
                 for mode in ('normal', 'keep'):
                     S.append({'cls': cls, 'variant': 0, 'phase': ph, 'pos': pos, 'cmd': mode, 'step': step, 'kind': kind})
+    # an instruction supplied by a suite (parsed once, part of every case) that needs a per-case symbol: the first case
+    # of the suite run defines a valid value, the second an invalid one
+    for vi in range(len(SUITE_SHARED)):
+        for ph in ('before-assert', 'assert', 'cleanup'):
+            if ph in SUITE_SHARED[vi][3]:
+                S.append({'cls': 'suite_shared_instruction', 'variant': vi, 'phase': ph, 'pos': 'last', 'cmd': 'suite'})
     # the symbol command: on valid cases and on a sample of defective ones
     for cmd in ('symbol', 'symbol_name'):
         S.append({'cls': 'none', 'variant': 0, 'phase': None, 'pos': None, 'cmd': cmd})
@@ -152,7 +171,10 @@ def make_plan(i, master, tier):
         sweep = False
         case = base_case(g)
         r = g.random()
-        if r < 0.08:
+        if r < 0.04:
+            vi = g.randrange(len(SUITE_SHARED))
+            spec = {'cls': 'suite_shared_instruction', 'variant': vi, 'phase': g.choice(SUITE_SHARED[vi][3]), 'pos': 'last'}
+        elif r < 0.08:
             spec = {'cls': 'act_syntax', 'variant': g.choice([0, 1]), 'phase': 'act', 'pos': 'first'}
         elif r < 0.25:
             step, kind, cls = g.choice([('symbols', 'undefined_symbol', 'stub_symbols'),
@@ -165,11 +187,17 @@ def make_plan(i, master, tier):
             spec = {'cls': cls, 'variant': vi, 'phase': g.choice(DEFECTS[cls][vi][1]),
                     'pos': g.choice(['first', 'middle', 'last', 'rand'])}
         spec['cmd'] = g.choices(['normal', 'keep', 'act', 'symbol', 'symbol_name'], [35, 25, 20, 10, 10])[0]
+        if spec['cls'] == 'suite_shared_instruction':
+            spec['cmd'] = 'suite'
     return build(seed, tier, case, spec, g, sweep)
 
 
 def build(seed, tier, case, spec, g, sweep):
     import copy
+    if spec['cls'] == 'suite_shared_instruction':
+        return {'format': 1, 'property': PROPERTY, 'engine': 'c03', 'run_seed': seed, 'tier': tier,
+                'knobs': {'mem_buff_size': g.choice([1, 8192])}, 'entry': 'cli', 'spec': spec, 'case': {}, 'control': {},
+                'procs': {'sp': {'exit': 0}}, 'faults': [], 'sweep': sweep, 'files': {'home/existing.txt': 'e'}}
     control = copy.deepcopy(case)
     faults = []
     cls, ph = spec['cls'], spec['phase']
@@ -214,6 +242,7 @@ def build(seed, tier, case, spec, g, sweep):
                 if it['k'] == 'probe':
                     procs[it['id']] = {'exit': 0}
     procs['p'] = {'exit': 0}
+    procs['echo-prog'] = {'exit': 0}
     return {'format': 1, 'property': PROPERTY, 'engine': 'c03', 'run_seed': seed, 'tier': tier,
             'knobs': {'mem_buff_size': g.choice([1, 8192])}, 'entry': 'cli', 'spec': spec, 'case': case,
             'control': control, 'procs': procs, 'faults': faults, 'sweep': sweep,
@@ -229,7 +258,46 @@ def _effects(sim, w, before):
             'world_changed': [a for a in after if a not in before][:5] + [b for b in before if b not in after][:5]}
 
 
+def _execute_suite(plan, scratch):
+    w = world_mod.World(os.path.join(scratch, 'w'))
+    w.populate(plan['files'])
+    spec = plan['spec']
+    instr, valid, invalid, _ = SUITE_SHARED[spec['variant']]
+    ph = spec['phase']
+
+    def case_text(n, value):
+        return ('[setup]\ndef string PERCASE = \'%s\'\n%% k%d-setup\n[act]\n%% k%d-atc\n[before-assert]\n%% k%d-ba\n'
+                '[assert]\n%% k%d-as\n[cleanup]\n%% k%d-cl\n' % (value, n, n, n, n, n))
+
+    w.write('home/k1.case', case_text(1, valid))
+    w.write('home/k2.case', case_text(2, invalid))
+    w.write('home/s.suite', '[cases]\nk1.case\nk2.case\n[%s]\n%s\n' % (ph, instr))
+    sim = kernel.Sim(plan, w)
+    before = w.snapshot()
+    with patches.installed(sim):
+        res = host.run_cli(sim, ['suite', 's.suite'], tap=True)
+        after = w.snapshot()
+        digest = sim.digest()
+    tags = [s_['tag'] for s_ in sim.spawns]
+    idents = {}
+    for line in res['stdout'].split('\n'):
+        for n in (1, 2):
+            if ('k%d.case' % n) in line and line.strip().split():
+                idents[n] = line.strip().split()[-1]
+    control_ok = idents.get(1) == 'PASS' and all(('k1-' + x) in tags for x in ('setup', 'atc', 'ba', 'as', 'cl'))
+    hist = {'text': open(os.path.join(w.home, 's.suite')).read(), 'argv': ['suite', 's.suite'], 'result': res,
+            'effects': {'spawns': [t for t in tags if t.startswith('k2-')], 'sandboxes': max(0, len(sim.sandboxes) - 1),
+                        'mains': [], 'world_changed': [a for a in after if a not in before][:5]},
+            'suite_idents': idents, 'control_ok': control_ok, 'control': {'exit': res['exit'], 'spawns': tags},
+            'discarded': not control_ok, 'digest': digest, 'sim_seconds': sim.clock.advanced,
+            'probes': {'class_suite_shared_instruction': 1, 'control_ok': 1 if control_ok else 0}, 'armed': {}, 'fired': {}}
+    w.destroy()
+    return hist
+
+
 def execute(plan, scratch):
+    if plan['spec']['cls'] == 'suite_shared_instruction':
+        return _execute_suite(plan, scratch)
     w = world_mod.World(os.path.join(scratch, 'w'))
     w.populate(plan['files'])
     spec = plan['spec']
@@ -284,6 +352,14 @@ def oracle(plan, hist):
         bad('returns', 'returns an exit code', {k: res.get(k) for k in ('hang', 'escape', 'exception')})
         return V
     eff = hist['effects']
+    if spec['cls'] == 'suite_shared_instruction':
+        if hist['suite_idents'].get(2) != 'VALIDATION_ERROR':
+            bad('identifier', 'VALIDATION_ERROR', hist['suite_idents'].get(2))
+        if eff['spawns']:
+            bad('no_process_started', [], eff['spawns'])
+        if eff['sandboxes']:
+            bad('no_sandbox_created', 0, eff['sandboxes'])
+        return V
     if eff['spawns']:
         bad('no_process_started', [], eff['spawns'])
     if eff['sandboxes']:
@@ -340,6 +416,8 @@ def sample_view(plan, hist):
 def normalize(plan):
     case = plan['case']
     spec = plan['spec']
+    if spec['cls'] == 'suite_shared_instruction':
+        return plan
     n_e = sum(1 for ph in PHASES for it in case.get(ph, []) if it.get('e'))
     need = {'defined_later': 2, 'act_syntax': 0, 'none': 0}.get(spec['cls'], 1)
     if spec['cls'] in ('stub_symbols', 'stub_validation') and spec['phase'] == 'act':
